@@ -46,7 +46,34 @@ def plan(ctx):
                 units.append(('paths', name, idx, 3000 if ctx.thorough else 300))
         else:
             units.append(('special', name, entry, 0))
+    for name in stb.LARGE_SIGNED:
+        units.append(('large', name, 0, 0))
     return units
+
+
+def large(t, name):
+    """the three clauses, once each, on a 220-node signed network (one call is hundreds of node picks)."""
+    a, kw = stb.LARGE_SIGNED[name]
+    f = getattr(bct, name)
+    res = {}
+    for k in (0, 1):
+        for g in (123, 999):
+            np.random.seed(g)
+            before = gstate()
+            r = f(*stb.clone(a), **dict(stb.clone(kw), seed=k))
+            t.c['evaluations'] += 1
+            case = {'function': name, 'large': True, 'seed': k, 'global_seed': g}
+            if not states_equal(gstate(), before):
+                t.viol(name, 'seeded_call_leaves_global_generator_untouched', case, tags={'seed_kind': 'int'})
+            if k in res and not same(res[k], r):
+                t.viol(name, 'same_seed_same_result', case, observed=short(r), expected=short(res[k]))
+            res.setdefault(k, r)
+        r = f(*stb.clone(a), **dict(stb.clone(kw), seed=np.random.RandomState(k)))
+        t.c['evaluations'] += 1
+        if not same(res[k], r):
+            t.viol(name, 'same_seed_same_result', {'function': name, 'large': True, 'seed': k, 'as': 'RandomState'},
+                   observed=short(r), expected=short(res[k]), tags={'first_obtained_by': 'S', 'now': 'R'})
+    t.c['nontrivial'] += 1
 
 
 def same(a, b):
@@ -272,6 +299,8 @@ def work(unit):
             histories(t, name, a, b)
         elif kind == 'paths':
             paths(t, name, a, b)
+        elif kind == 'large':
+            large(t, name)
         else:
             special(t, name, a)
     finally:
@@ -291,7 +320,9 @@ def replay(rec):
     t = Tally(PROPERTY)
     case = rec['case']
     name = case['function']
-    if 'history' in case:
+    if case.get('large'):
+        large(t, name)
+    elif 'history' in case:
         histories(t, name, case['args_index'], len(case['history']))
     elif 'answers' in case:
         paths(t, name, case['args_index'], 3000)
